@@ -283,6 +283,47 @@ func copWalk(d *concDoc) concOp {
 	}}
 }
 
+// copWalkAbort: user code that stops its traversal early (Post returns false while frames are pending).
+func copWalkAbort(d *concDoc, stopAt int) concOp {
+	return concOp{name: fmt.Sprintf("walk-abort:%d", stopAt), run: func(c *caller) int {
+		var sb strings.Builder
+		for _, b := range d.blocks {
+			n := 0
+			commonmark.Walk(b.AsNode(), &commonmark.WalkOptions{
+				Post: func(cur *commonmark.Cursor) bool {
+					gate(c, sitePost, nil)
+					n++
+					fmt.Fprintf(&sb, "post %d %v;", kindCode(cur.Node()), cur.Node().Span())
+					return n < stopAt
+				},
+			})
+		}
+		return digest([]byte(sb.String()))
+	}}
+}
+
+// sharedArena: parse inputs that are sub-slices of ONE backing array, each with the next input in its spare capacity.
+var sharedArena []byte
+var sharedArenaOrig []byte
+var arenaInputs [][]byte
+
+func initArena() {
+	if sharedArena != nil {
+		return
+	}
+	docs := []string{"first\x00doc *a*\n\n", "second doc _b_\n\n", "third\x00\x00doc `c`\n\n", "[fourth](/doc)\n\n", "> fifth doc\n\n"}
+	for _, d := range docs {
+		sharedArena = append(sharedArena, d...)
+	}
+	sharedArena = append(sharedArena, bytes.Repeat([]byte{0xAA}, 64)...)
+	sharedArenaOrig = append([]byte(nil), sharedArena...)
+	off := 0
+	for _, d := range docs {
+		arenaInputs = append(arenaInputs, sharedArena[off:off+len(d)]) // len < cap: the spare capacity is the next document
+		off += len(d)
+	}
+}
+
 func dumpParsed(blocks []*commonmark.RootBlock, refs commonmark.ReferenceMap) int {
 	var sb strings.Builder
 	for _, b := range blocks {
@@ -378,7 +419,11 @@ func opTuples(n int, src *inputSource, count int) [][]concOp {
 				case 3:
 					t = append(t, copFormat(d, src.rng.Intn(2) == 0))
 				case 4:
-					t = append(t, copWalk(d))
+					if i == 0 && src.rng.Intn(2) == 0 {
+						t = append(t, copWalkAbort(d, 1+src.rng.Intn(4)))
+					} else {
+						t = append(t, copWalk(d))
+					}
 				default:
 					r := &commonmark.HTMLRenderer{ReferenceMap: d.refs, SoftBreakBehavior: commonmark.SoftBreakBehavior(src.rng.Intn(3))}
 					t = append(t, copRender(d, r, "nofilter"))
@@ -386,8 +431,12 @@ func opTuples(n int, src *inputSource, count int) [][]concOp {
 			}
 		case 2: // parses of distinct inputs
 			perm := src.rng.Perm(len(concParseInputs))
+			initArena()
 			for i := 0; i < n; i++ {
 				in := []byte(concParseInputs[perm[i]])
+				if (k/4)%2 == 1 {
+					in = arenaInputs[(k/4+i)%len(arenaInputs)] // distinct inputs that share one backing array
+				}
 				if src.rng.Intn(3) == 0 {
 					t = append(t, copParseMem(in))
 				} else {
@@ -721,6 +770,9 @@ func worldDigestFn() func() int {
 		for _, d := range worldDocs {
 			h = h*31 + d.digest()
 		}
+		if sharedArena != nil && !bytes.Equal(sharedArena, sharedArenaOrig) {
+			h ^= 0x5555 // a parse wrote outside its own input
+		}
 		return h & 0xfffffff
 	}
 }
@@ -737,6 +789,13 @@ func concRace(res *Result, dur time.Duration) *Result {
 	var ops []concOp
 	for _, t := range tuples {
 		ops = append(ops, t...)
+	}
+	initArena()
+	for _, in := range arenaInputs {
+		ops = append(ops, copParseMem(in))
+	}
+	for i := 0; i < 3; i++ {
+		ops = append(ops, copWalkAbort(newConcDoc(concDocSources[i]), 2+i))
 	}
 	// every spec example: parsed (both routes) by several goroutines at once, and its tree rendered / formatted / walked
 	for i, ex := range specExamples() {
